@@ -73,6 +73,7 @@ type gen struct {
 	r        *Rand
 	types    []string // declared user types (object types)
 	scalars  []string // declared scalar user types
+	anys     []string // declared free-form ({type: "any"}) user types
 	enums    []string
 	tags     []string
 	macros   []*node
@@ -230,12 +231,27 @@ func (g *gen) newType() *node {
 		g.scalars = append(g.scalars, name)
 		return n
 	}
+	if g.r.Chance(1, 8) {
+		// a free-form type: the root carries {type: "any"}; usable wherever a reference is
+		g.feat("any-type")
+		n.body = []string{g.r.Pick([]string{`{} // {type: "any"}`, `"x" // {type: "any"}`, `1 // {type: "any"}`})}
+		g.anys = append(g.anys, name)
+		return n
+	}
 	if g.r.Chance(1, 5) {
 		n.head += " // " + g.r.Pick(words) + " type"
 	}
 	n.body = g.objectLines(0, true)
 	g.types = append(g.types, name)
 	return n
+}
+
+// refName: a user type to refer to from a request / response head or body: object types and free-form types.
+func (g *gen) refName() string {
+	if len(g.anys) > 0 && (len(g.types) == 0 || g.r.Chance(1, 3)) {
+		return g.r.Pick(g.anys)
+	}
+	return g.r.Pick(g.types)
 }
 
 func (g *gen) newEnum() *node {
@@ -272,8 +288,8 @@ func (g *gen) response(code int) *node {
 		nd.head = fmt.Sprintf("%d any", code)
 	case k < 3:
 		nd.head = fmt.Sprintf("%d empty", code)
-	case k < 5 && len(g.types) > 0:
-		nd.head = fmt.Sprintf("%d %s", code, g.r.Pick(g.types))
+	case k < 5 && len(g.types)+len(g.anys) > 0:
+		nd.head = fmt.Sprintf("%d %s", code, g.refName())
 		if g.r.Chance(1, 3) {
 			nd.head += " // " + g.r.Pick(words)
 		}
@@ -339,8 +355,12 @@ func (g *gen) method(verb, p string, grouped bool) *node {
 		g.feat("request")
 		rq := &node{head: "Request"}
 		switch k := g.r.Intn(4); {
-		case k == 0 && len(g.types) > 0:
-			rq.head += " " + g.r.Pick(g.types)
+		case k == 0 && len(g.types)+len(g.anys) > 0:
+			if g.r.Chance(1, 2) {
+				rq.head += " " + g.refName()
+			} else {
+				rq.body = []string{g.refName()}
+			}
 		case k == 1:
 			g.feat("req-headers")
 			rq.kids = []*node{
